@@ -73,6 +73,13 @@ import string as _string
 PURE_MODULES = {'string': _string, 'itertools': _itertools, 'keyword': _keyword, 'math': _math}
 
 
+def _safe_repr(v):
+    try:
+        return repr(v)[:80]
+    except ValueError:      # integers beyond the digit limit of int -> str conversion
+        return '<%s too long to print>' % type(v).__name__
+
+
 class _GenClose(BaseException):
     pass
 
@@ -698,7 +705,7 @@ class Interp(object):
         try:
             return v[k]
         except KeyError:
-            raise _Raise('KeyError:%r' % (k,))
+            raise _Raise('KeyError:%s' % _safe_repr(k))
         except IndexError:
             raise _Raise('IndexError')
         except Exception:
@@ -1312,6 +1319,11 @@ class Interp(object):
 
     def builtin_hasattr(self, args, kwargs, e, env):
         o, name = args
+        a0 = e.args[0] if e is not None and getattr(e, 'args', None) else None
+        if isinstance(a0, ast.Name) and a0.id not in env and isinstance(name, str) and \
+                (a0.id == 'ast' or (self.model is not None and self.module is not None and self.model.is_ast_alias(self.module, a0.id))):
+            # hasattr(ast, 'ClassName'): the node classes of this interpreter plus the compatibility classes of the package
+            return hasattr(ast, name) or (self.model is not None and ('python_minifier.ast_compat.' + name) in self.model.classes)
         if o is TOP or name is TOP:
             return TOP
         if isinstance(o, Obj):
